@@ -17,13 +17,17 @@ from vlib.runner import Sub, Verdict, fail
 
 PROPERTY_ID = 'C08'
 LEVEL = 'exploration'
-RULE = ('cases = symbol programs: <= 8 items (def of any of the 13 types with values that reference earlier symbols, '
-        'or uses: file/dir/run/assert-phase matcher uses, act line with arguments or a program symbol) over 7 names + '
-        'builtins, phases in any file order; random programs are valid by construction and then get at most one '
-        'fault (definition moved later, use moved earlier, duplicate, builtin name, reference retargeted / undefined, '
-        'definition dropped, act refers to a later phase, item moved); plus the exhaustive (context x defined type x '
-        'chain) matrix and the exhaustive definition-phase x use-phase x order x file-order table; non-trivial = the '
-        'program contains at least one reference or a duplicate definition; distinct = distinct program')
+RULE = ('cases = symbol programs: <= 8 items (def of any of the 13 types with values that reference earlier symbols - '
+        'strings also as `:> text` and here-documents, programs also as shell command lines, text sources also as '
+        '-stdout-from PROGRAM, matchers/transformers also as `run PROGRAM` - or uses: file / dir / env / stdin / timeout '
+        '/ run / the instructions `%` and `$` / assert-phase matcher uses, act line with arguments, a shell command '
+        'or a program symbol) over 7 names + builtins, phases in any file order and optionally written in several '
+        'pieces; random programs are valid by construction and then get at most one fault (definition moved later, '
+        'use moved earlier, duplicate, builtin name, reference retargeted / undefined, definition dropped, act refers '
+        'to a later phase, item moved, a string that a strings-only context depends on made impure); plus the '
+        'exhaustive (114 contexts x 13 defined types x 7 chains) matrix and the exhaustive definition-phase x '
+        'use-phase x order x file-order (incl. split phases) table; non-trivial = the program contains at least one '
+        'reference or a duplicate definition; distinct = distinct program')
 ASSUMPTIONS = [
     'the per-context type demands are transcribed from the SYMBOL-REFERENCE paragraphs of `help syntax STRING|LIST|'
     'PROGRAM-ARGUMENT|TEXT-SOURCE|PATH|<logic type>`',
@@ -34,10 +38,21 @@ ASSUMPTIONS = [
     'a naked token that is exactly one reference in TEXT-SOURCE position is read as the SYMBOL-REFERENCE form '
     '(text-source or string), not as a RICH-STRING',
     'paths are compared as pathlib.PurePosixPath renders them (repeated and trailing slashes removed)',
-    'INTEGER arguments that do not evaluate to a Python int and invalid REGEXes are validated by value, not by type: '
-    'for programs that contain one the check accepts VALIDATION_ERROR as well as acceptance',
-    'values whose semantics are outside the property (filter/replace/strip transformers, OS_PATH_SEP) are not '
-    'predicted; observations that depend on them are skipped (label value-unknown)',
+    'arguments validated by value, not by type - INTEGER that does not evaluate to a Python int, invalid REGEX, '
+    'FILE-NAME of a file list that is empty / absolute / contains ".." / ":" / ";" - are outside the property: for '
+    'programs that contain one the check accepts VALIDATION_ERROR as well as acceptance (and HARD_ERROR when the '
+    'invalid REGEX contains a sandbox path, which cannot be known before the sandbox exists)',
+    'values whose semantics are outside the property (filter/replace/strip transformers, OS_PATH_SEP, arguments '
+    'appended to a shell command line) are not predicted; observations that depend on them are skipped (label '
+    'value-unknown); the generators never append arguments to a shell command line (ref.normalise)',
+    'how often a program inside a value runs is checked only where the manual fixes it: not for `env NAME = '
+    '-stdout-from ...` (one run per environment, C11), `stdin = ...` of [setup] (produced at the instruction or when '
+    'the action starts), transformations of a program whose output nobody reads (label invocations-unknown)',
+    'side finding, not C08: the own -stdin of a `run PROGRAM` transformer and a model that is the unprocessed output '
+    'of another program reach the program in the opposite order (concat.write_to, unflushed buffer); the stdin of '
+    'such an invocation is not compared',
+    'here-documents are not generated as arguments inside [act] (its lines belong to the actor: an empty line of the '
+    'here-document is dropped there - C10)',
     'current directory = act directory in every phase (no cd is generated), so -rel-cd paths have one value',
 ]
 
@@ -328,7 +343,8 @@ def check(case) -> Verdict:
     labels.append('observations:%s' % (n_obs if n_obs < 4 else '4+'))
     return Verdict(True, nontrivial=nontrivial, labels=labels,
                    sample={'case_text': text, 'identifier': ident,
-                           'files': _json_safe(out.files), 'events': _json_safe(out.events)})
+                           'files': _json_safe(out.files), 'events': _json_safe(out.events),
+                           'shell': _json_safe(out.shell)})
 
 
 def render_case(case):
@@ -338,6 +354,6 @@ def render_case(case):
 SUBS = [
     Sub('matrix', check, enumerate=c08_gen.matrix_cases, exhaustive=True, render=render_case),
     Sub('scope', check, enumerate=c08_gen.scope_cases, exhaustive=True, render=render_case),
-    Sub('programs', check, strategy=lambda tier: c08_gen.programs(), budget={'quick': 3000, 'thorough': 150000},
+    Sub('programs', check, strategy=lambda tier: c08_gen.programs(), budget={'quick': 4000, 'thorough': 150000},
         render=render_case),
 ]
